@@ -328,6 +328,7 @@ def _shallow_sig(v, _depth=0):
     return None
 
 
+_INTERNAL_KEY = re.compile(r'__(caller|gen|yields|ysnap|fuse|iter|list|exitstacks|x\d+|k_\w+|base|idx|val|recv|fn|obj|f)@\d+$|__handling$|__exc$')
 _FRAME_LOCAL = re.compile(r'__(iter|list|exitstacks)@\d+$|__handling$')
 
 
@@ -1434,9 +1435,15 @@ class Interp:
         ykey = '__yields@%d' % len(self._inline_stack)
         if is_gen and share_yields:
             is_gen = False              # its yields go to the enclosing generator's list (ev_Yield picks the innermost list)
+        gen_before = None
         if is_gen:
             cs.env[ykey] = []           # a generator function: interpreted eagerly, its call yields an iterator over the values
             cs.env['__ysnap@%d' % len(self._inline_stack)] = []
+            if fuse_req is None and self.heap:
+                try:
+                    gen_before = _freeze({k: v for k, v in s.env.items() if not _INTERNAL_KEY.match(k)})
+                except RecursionError:
+                    gen_before = None
             if fuse_req is not None:
                 cs.env['__fuse@%d' % len(self._inline_stack)] = fuse_req      # ... unless it feeds a for loop: then each yield runs the loop body
         ckey = '__caller@%d' % len(self._inline_stack)
@@ -1503,6 +1510,14 @@ class Interp:
                                             'another state than the eager interpretation (line %s)' % (fname, getattr(call, 'lineno', '?')))
                                 break
                     gi = Iter(ys) if isinstance(ys, list) else TOP
+                    if gen_before is not None and not mismatch:
+                        try:
+                            after = _freeze({k: v for k, v in ns.env.items() if not _INTERNAL_KEY.match(k)})
+                        except RecursionError:
+                            after = None
+                        if after != gen_before:
+                            mismatch = ('the generator %s changes objects of its caller while it runs: a consumer that takes the items one by one '
+                                        'sees these changes later than the eager interpretation makes them (line %s)' % (fname, getattr(call, 'lineno', '?')))
                     if mismatch and isinstance(gi, Iter):
                         gi.lazy_mismatch = mismatch         # reported when the items are taken one at a time (for / next)
                     results.append((ns, gi))
@@ -2754,6 +2769,19 @@ class Interp:
         cenv, genv = s.env.get(ckey), s.env
         if not isinstance(cenv, dict):
             raise _FuseFail()
+        same_self = genv.get('self') is cenv.get('self')
+
+        def shared(k):
+            if _INTERNAL_KEY.match(k):
+                return False
+            if (k.startswith('self.') or k.startswith('self[')) and not same_self:
+                return False
+            return '.' in k or '[' in k or k.startswith('__')
+        for k in [k for k in cenv if shared(k) and k not in genv]:
+            del cenv[k]
+        for k, val in list(genv.items()):
+            if shared(k):
+                cenv[k] = val                 # facts and scenario state (stream positions, logs) travel with the control flow
         cenv[gkey] = genv
         cst = State(cenv, s.trace, dict(s.assumed))
         cst.flags = s.flags
@@ -2773,6 +2801,11 @@ class Interp:
         if g2 is not genv:
             raise _FuseFail()                 # the state was copied under way: the generator's objects are no longer the consumer's
         if kind in ('fall', 'continue'):
+            for k in [k for k in genv if shared(k) and k not in st2.env]:
+                del genv[k]
+            for k, val in list(st2.env.items()):
+                if shared(k):
+                    genv[k] = val
             genv[ckey] = st2.env
             for k2, e2 in list(genv.items()):
                 if k2.startswith('__caller@') and k2 != ckey and isinstance(e2, dict) and ckey in e2:
